@@ -347,3 +347,24 @@ def selftest_fast():
         if read_fast(s) != read_rgb_set(s):
             raise HarnessError(f"O-CSS fast path disagrees with the exact path on {s!r}")
         k += 1
+
+
+# ---- library INPUT spellings: CSS Color 3 plus the documented '#'-less hex form -----------------------
+
+_NOHASH_RE = re.compile(r"[0-9a-fA-F]{3}\Z|[0-9a-fA-F]{6}\Z")
+
+
+def _as_css(s):
+    if isinstance(s, str):
+        t = s.strip(_WS)
+        if t.lower() not in KEYWORD_RGB and _NOHASH_RE.match(t):
+            return "#" + t
+    return s
+
+
+def parse_input(s):
+    return parse(_as_css(s))
+
+
+def read_input_set(s):
+    return read_rgb_set(_as_css(s))
